@@ -14,6 +14,7 @@
 -/
 import RV.Model.Vendor
 import RV.Proofs.Vendor
+import RV.Proofs.HelperImp
 namespace RV.C14
 open RV
 
@@ -120,8 +121,9 @@ theorem add_then_gets (vid : Nat) (typ : UInt8) (attr : Bytes) (as as' : Attrs) 
 
 /-! ### 5. Set / Del: effect on the reads -/
 
-/-- Set succeeds iff the value has 1..247 bytes — independently of the packet, and decided before
-    the packet is touched; a refused Set returns `.err`, which carries no packet -/
+/-- Set succeeds iff the value has 1..247 bytes — independently of the packet.  (The pure `setVendor`
+    returns `.err` without a packet; what the packet holds after a refused Set is the subject of
+    `failure_leaves_unchanged` below, about the imperative mirror.) -/
 theorem set_ok_iff (vid : Nat) (typ : UInt8) (attr : Bytes) (as : Attrs) :
     (∃ as', setVendor vid typ attr as = .ok as') ↔ (1 ≤ attr.length ∧ attr.length ≤ 247) := by
   unfold setVendor; rw [vendorAttr_eq]
@@ -131,6 +133,81 @@ theorem set_err_iff (vid : Nat) (typ : UInt8) (attr : Bytes) (as : Attrs) :
     setVendor vid typ attr as = .err ↔ ¬ (1 ≤ attr.length ∧ attr.length ≤ 247) := by
   unfold setVendor; rw [vendorAttr_eq]
   by_cases h : 1 ≤ attr.length ∧ attr.length ≤ 247 <;> simp [h]
+
+/-! #### "on failure leave the packet unchanged" — imperative mirror (RV/Model/HelperImp.lean)
+
+    `Imp.setVendorImp` / `Imp.addVendorImp` / `Imp.delVendorS` are state-passing mirrors of
+    `_V_SetVendor` / `_V_AddVendor` / `_V_DelVendor` in the Go statement order; they return the result
+    AND the packet's attribute list afterwards, also on error. -/
+
+/-- refinement: on success the imperative mirror ends in exactly the pure model's list -/
+theorem setImp_ok_iff (vid : Nat) (typ : UInt8) (attr : Bytes) (as as' : Attrs) :
+    Imp.setVendorImp vid typ attr as = (.ok (), as') ↔ setVendor vid typ attr as = .ok as' := by
+  rw [Imp.setVendorImp_eq]; exact Imp.outcome_ok_iff _ _ _
+
+theorem addImp_ok_iff (vid : Nat) (typ : UInt8) (attr : Bytes) (as as' : Attrs) :
+    Imp.addVendorImp vid typ attr as = (.ok (), as') ↔ addVendor vid typ attr as = .ok as' := by
+  rw [Imp.addVendorImp_eq]; exact Imp.outcome_ok_iff _ _ _
+
+theorem delImp_eq (vid : Nat) (typ : UInt8) (as : Attrs) :
+    Imp.delVendorS vid typ as = (.ok (), delVendor vid typ as) := rfl
+
+/-- refinement, outcome classes -/
+theorem setImp_err_iff (vid : Nat) (typ : UInt8) (attr : Bytes) (as : Attrs) :
+    ((Imp.setVendorImp vid typ attr as).1 = .err ↔ setVendor vid typ attr as = .err) ∧
+    ((Imp.setVendorImp vid typ attr as).1 = .fault ↔ setVendor vid typ attr as = .fault) := by
+  rw [Imp.setVendorImp_eq]; exact ⟨Imp.outcome_err_iff _ _, Imp.outcome_fault_iff _ _⟩
+
+theorem addImp_err_iff (vid : Nat) (typ : UInt8) (attr : Bytes) (as : Attrs) :
+    ((Imp.addVendorImp vid typ attr as).1 = .err ↔ addVendor vid typ attr as = .err) ∧
+    ((Imp.addVendorImp vid typ attr as).1 = .fault ↔ addVendor vid typ attr as = .fault) := by
+  rw [Imp.addVendorImp_eq]; exact ⟨Imp.outcome_err_iff _ _, Imp.outcome_fault_iff _ _⟩
+
+/-- "… and on failure leave the packet unchanged": for every vendor, type, value and prior packet,
+    Set and Add either refuse (value not of 1..247 bytes) and the attribute list after the call IS
+    the list before the call, or succeed and end in the pure model's list; whenever the result is
+    not success the state is the initial state -/
+theorem failure_leaves_unchanged (vid : Nat) (typ : UInt8) (attr : Bytes) (as : Attrs) :
+    ((Imp.setVendorImp vid typ attr as = (.err, as) ∧ ¬ (1 ≤ attr.length ∧ attr.length ≤ 247)) ∨
+      (∃ as', Imp.setVendorImp vid typ attr as = (.ok (), as') ∧ setVendor vid typ attr as = .ok as' ∧
+        (1 ≤ attr.length ∧ attr.length ≤ 247))) ∧
+    ((Imp.addVendorImp vid typ attr as = (.err, as) ∧ ¬ (1 ≤ attr.length ∧ attr.length ≤ 247)) ∨
+      (∃ as', Imp.addVendorImp vid typ attr as = (.ok (), as') ∧ addVendor vid typ attr as = .ok as' ∧
+        (1 ≤ attr.length ∧ attr.length ≤ 247))) ∧
+    ((Imp.setVendorImp vid typ attr as).1 ≠ .ok () → (Imp.setVendorImp vid typ attr as).2 = as) ∧
+    ((Imp.addVendorImp vid typ attr as).1 ≠ .ok () → (Imp.addVendorImp vid typ attr as).2 = as) := by
+  refine ⟨?_, ?_, ?_, ?_⟩
+  · rw [Imp.setVendorImp_eq]
+    by_cases h : 1 ≤ attr.length ∧ attr.length ≤ 247
+    · obtain ⟨as', hs⟩ := (set_ok_iff vid typ attr as).2 h
+      exact Or.inr ⟨as', by rw [hs]; rfl, hs, h⟩
+    · have hs := (set_err_iff vid typ attr as).2 h
+      exact Or.inl ⟨by rw [hs]; rfl, h⟩
+  · rw [Imp.addVendorImp_eq]
+    by_cases h : 1 ≤ attr.length ∧ attr.length ≤ 247
+    · obtain ⟨as', hs⟩ := (add_ok_iff vid typ attr as).2 h
+      exact Or.inr ⟨as', by rw [hs]; rfl, hs, h⟩
+    · have hs := (add_err_iff vid typ attr as).2 h
+      exact Or.inl ⟨by rw [hs]; rfl, h⟩
+  · rw [Imp.setVendorImp_eq]; exact Imp.outcome_unchanged _ _
+  · rw [Imp.addVendorImp_eq]; exact Imp.outcome_unchanged _ _
+
+/-- negative control: `_V_SetVendor` in the statement order it had before the repair (removal first,
+    then `_V_AddVendor`, whose encoding can fail).  After ANY refused Set the packet is the packet
+    with the type's sub-attributes removed — so it differs from the initial one exactly when there
+    was something to remove -/
+theorem old_set_order_state_after_failure (vid : Nat) (typ : UInt8) (attr : Bytes) (as : Attrs)
+    (h : ¬ (1 ≤ attr.length ∧ attr.length ≤ 247)) :
+    Imp.setVendorOldImp vid typ attr as = (.err, delVendor vid typ as) := by
+  rw [Imp.setVendorOldImp_eq, vendorAttr_eq, if_neg h]
+
+/-- … concretely: one Vendor-Specific attribute holding the type, Set with an empty value -/
+theorem old_set_order_changes_packet_on_failure :
+    ∃ (vid : Nat) (typ : UInt8) (attr : Bytes) (as : Attrs),
+      (Imp.setVendorOldImp vid typ attr as).1 = .err ∧ (Imp.setVendorOldImp vid typ attr as).2 ≠ as ∧
+      Imp.setVendorImp vid typ attr as = (.err, as) :=
+  ⟨9, 1, [], [⟨26, [0, 0, 0, 9, 1, 3, 0xAA, 2, 3, 0xBB]⟩],
+    by decide +kernel, by decide +kernel, by decide +kernel⟩
 
 /-- a successful Set is Del followed by Add of the same (already validated) attribute -/
 theorem set_eq_del_add (vid : Nat) (typ : UInt8) (attr : Bytes) (as as' : Attrs)
@@ -279,6 +356,15 @@ theorem short_vsa_not_created (vid : Nat) (typ : UInt8) (as : Attrs) (a : AVP)
   rcases no_empty_left vid typ as a h with ⟨h1, _⟩ | ⟨_, h2, _⟩
   · exact h1
   · omega
+
+/-! ### Non-vacuity: failure leaves the packet unchanged -/
+
+/-- a refused Set (249-octet value) on a packet that holds the attribute: error, list unchanged -/
+example : Imp.setVendorImp 9 1 (zeros 249) [⟨26, [0, 0, 0, 9, 1, 3, 0xAA]⟩] =
+    (.err, [⟨26, [0, 0, 0, 9, 1, 3, 0xAA]⟩]) :=
+  ((failure_leaves_unchanged 9 1 (zeros 249) [⟨26, [0, 0, 0, 9, 1, 3, 0xAA]⟩]).1.resolve_right
+    (by rintro ⟨_, _, _, h⟩; rw [zeros_length] at h; omega)).1
+example : ¬ (1 ≤ ([] : Bytes).length ∧ ([] : Bytes).length ≤ 247) := by decide
 
 /-! ### Non-vacuity (tests): hostile payloads -/
 
